@@ -151,7 +151,7 @@ type World struct {
 	slotBase       map[interface{}]int
 	reqSeq         int
 	revTie         bool // scenario opened its stores with a custom sort function (ties by clock id, reversed)
-	lenBefore      int // log length before the write in progress
+	lenBefore      int  // log length before the write in progress
 	heldFirst      map[string]chan struct{}
 	heldTaken      map[string]chan struct{}
 	reuseOpts      bool // address family: each peer passes one options value to every create/open
